@@ -321,6 +321,7 @@ def run_batch(check, tier, verif_seed, procs=None, runs=None, wall=None, digests
     inflight = 0
     sample_every = max(1, runs // 4)
     hang_is_violation = getattr(check, "HANG_IS_VIOLATION", False)
+    hang_candidates = []
 
     def feed(w):
         nonlocal next_idx, inflight
@@ -361,10 +362,9 @@ def run_batch(check, tier, verif_seed, procs=None, runs=None, wall=None, digests
                 w.kill()
                 inflight -= 1
                 if hang_is_violation:
-                    case = check.gen(Choices(seed), tier)
-                    agg.evaluations += 1
-                    agg.violations.append(({"kind": "hang", "msg": f"run did not finish within {run_timeout}s wall",
-                                            "sig": {"hang": True}}, case, seed))
+                    # judged after the batch, alone in a fresh worker and with twice the limit: a loaded or
+                    # memory-starved machine must not be reported as "the computation does not return"
+                    hang_candidates.append((idx, seed))
                 else:
                     agg.evaluations += 1
                     agg.harness_errors.append({"seed": seed, "idx": idx, "error": f"run exceeded {run_timeout}s wall"})
@@ -381,6 +381,27 @@ def run_batch(check, tier, verif_seed, procs=None, runs=None, wall=None, digests
                        "hashseed": os.environ.get("PYTHONHASHSEED"), "procs": procs}, f)
         print(f"[{check.ID}] wrote {len(agg.event_digests)} event digests to {digests_path}")
         return 2 if agg.harness_errors else 0
+
+    for idx, seed in hang_candidates:
+        case = check.gen(Choices(seed), tier)
+        w = Worker(ctx, check, verif_seed, tier)
+        w.send(("case", case))
+        agg.stats["slow_runs_retried_alone"] = agg.stats.get("slow_runs_retried_alone", 0) + 1
+        if w.parent_conn.poll(2 * run_timeout):
+            try:
+                res = w.parent_conn.recv()
+                res["idx"], res["seed"] = idx, seed
+                agg.add(res, False)
+            except (EOFError, OSError):
+                agg.evaluations += 1
+                agg.harness_errors.append({"seed": seed, "idx": idx, "error": "worker died while re-running a slow case"})
+            w.stop()
+        else:
+            w.kill()
+            agg.evaluations += 1
+            agg.violations.append(({"kind": "hang", "msg": f"run did not finish within {run_timeout}s wall in the batch, nor within "
+                                                          f"{2 * run_timeout}s alone in a fresh process",
+                                    "sig": {"hang": True}}, case, seed))
 
     # -- post-processing: known findings, shrinking, replay files -----------
     known = load_known(check.ID)
